@@ -208,12 +208,13 @@ func (*parser).peekN [C03]
   ensures result != nil
   ensures 0 <= p.cur + n && p.cur + n < len(p.tokens) ==> result.Type == p.tokens[p.cur + n].Type
 
-func (*parser).previous [C03]
+func (*parser).previous [C03, C07]
   safe
   requires wfCur(p)
   modifies nothing
   ensures result != nil
   ensures p.cur >= 1 ==> result.Type == p.tokens[p.cur - 1].Type
+  ensures p.cur >= 1 ==> result == addrOfElem(p.tokens, p.cur - 1)
 
 func (*parser).atEnd [C03]
   safe
@@ -268,4 +269,15 @@ func (*parser).synchronize [C03]
   ensures wfCur(p) && p.cur >= old(p.cur) && !p.panicMode
   loop 0 invariant wfCur(p) && p.cur >= old(p.cur)
   loop 0 decreases len(p.tokens) - p.cur
+
+// ================= C07: diagnostic ranges built from tokens have their start not after their end =================
+// checkAlias re-parses the call site from `start`; it never leaves the cursor before `start`
+func (*parser).checkAlias
+  postassume p.cur >= start
+
+// every range built in alias() spans from the call's first token to a token that is not before it
+func (*parser).alias [C07]
+  requires wfCur(p)
+  callsite NewRange requires elemIndex(arg0) <= elemIndex(arg1)
+  loop 0 invariant wfCur(p) && p.cur >= start
 @*/
